@@ -839,8 +839,43 @@ func init() {
 		sc.ServerScripts = [][]Op{recvs(1)}
 		idle := p.dur("idle", 45*time.Second)
 		sc.Goal = func(w *World) bool { return w.s.Now() >= idle }
+		lossy := p.has("lossy")
+		if lossy {
+			// drops after the handshake: a lost answer may legitimately
+			// close the connection, but only when nothing at all reached
+			// the endpoint during the pong timeout that expired
+			sc.Faults = FaultCfg{Drop: true, AfterHandshake: true}
+		}
 		sc.Monitors = append(sc.Monitors, func(w *World) {
-			for _, e := range []*Endpoint{w.C, w.S} {
+			for _, x := range []struct {
+				e    *Endpoint
+				pong time.Duration
+			}{{w.C, sc.PongC}, {w.S, sc.PongS}} {
+				e := x.e
+				if lossy {
+					if e.closedAt < 0 || x.pong <= 0 {
+						continue
+					}
+					// an endpoint that was told to close by the peer's FIN
+					// did not close by keepalive
+					fin, heard := false, time.Duration(-1)
+					e.in.mu.Lock()
+					for _, r := range e.in.deliveredLog {
+						if r.At <= e.closedAt && pktName(r.Data) == "FIN" {
+							fin = true
+						}
+						if r.At > e.closedAt-x.pong+10*time.Millisecond && r.At < e.closedAt-10*time.Millisecond {
+							heard = r.At
+						}
+					}
+					e.in.mu.Unlock()
+					if !fin && heard >= 0 {
+						w.fail("keepalive/live-peer-closed/"+e.Name+"/heard-within-pong-timeout",
+							"%s closed the connection at %v although a packet of the peer reached it at %v, inside the pong timeout (%v) that had to expire first",
+							e.Name, e.closedAt, heard, x.pong)
+					}
+					continue
+				}
 				if e.closedAt >= 0 {
 					w.fail("keepalive/live-peer-closed/"+e.Name,
 						"%s closed the connection at %v although the peer answered every packet within %v (< pong timeout)",
